@@ -23,6 +23,10 @@ type celValidator struct {
 	structName string
 	ruleName   string
 	parentPath string
+
+	// unsupported names the first CEL construct met during conversion that has
+	// no Go rendering; conversion then fails instead of substituting `true`.
+	unsupported string
 }
 
 var _ validator.Validator = (*celValidator)(nil)
@@ -202,7 +206,12 @@ func (c *celValidator) convertCELToGo(celExpr, fieldName string) (string, error)
 	// Convert CEL AST to Go expression string
 	// Use the parsed AST directly to avoid deprecated methods
 	//nolint:staticcheck // ast.Expr() is deprecated but still functional
+	c.unsupported = ""
 	goExpr := c.convertASTToGo(ast.Expr(), fieldName)
+
+	if c.unsupported != "" {
+		return "", fmt.Errorf("unsupported CEL construct: %s", c.unsupported)
+	}
 
 	return goExpr, nil
 }
@@ -225,8 +234,18 @@ func (c *celValidator) convertASTToGo(expr *exprpb.Expr, fieldName string) strin
 	case *exprpb.Expr_ComprehensionExpr:
 		return c.convertComprehensionExpr(expr.GetComprehensionExpr(), fieldName)
 	default:
-		return trueFallback // fallback
+		return c.fallback("expression kind") // fallback
 	}
+}
+
+// fallback records a construct that cannot be rendered. The literal it returns keeps
+// the surrounding text well formed; convertCELToGo rejects the expression afterwards.
+func (c *celValidator) fallback(construct string) string {
+	if c.unsupported == "" {
+		c.unsupported = construct
+	}
+
+	return trueFallback
 }
 
 // convertIdentExpr converts identifier expressions.
@@ -244,6 +263,11 @@ func (c *celValidator) convertIdentExpr(ident *exprpb.Expr_Ident, fieldName stri
 // convertSelectExpr converts select expressions (field access).
 func (c *celValidator) convertSelectExpr(selectExpr *exprpb.Expr_Select, fieldName string) string {
 	operand := c.convertASTToGo(selectExpr.Operand, fieldName)
+
+	// has(x.f) tests presence; rendering it as the field access x.f would test the value.
+	if selectExpr.TestOnly {
+		return c.fallback("has(" + operand + "." + selectExpr.Field + ")")
+	}
 
 	if operand == "t" {
 		return fmt.Sprintf("t.%s", selectExpr.Field)
@@ -273,7 +297,7 @@ func (c *celValidator) convertCallToGo(callExpr *exprpb.Expr_Call, fieldName str
 	}
 
 	// Fallback for unknown functions
-	return trueFallback
+	return c.fallback("function " + function)
 }
 
 // convertOperator converts CEL operators to Go operators.
@@ -695,7 +719,7 @@ func (c *celValidator) convertMethodCall(method string, target *exprpb.Expr, arg
 	}
 
 	// Fallback for unknown method calls
-	return trueFallback
+	return c.fallback("method " + method)
 }
 
 // convertListExpr converts list expressions like ['a', 'b', 'c'].
